@@ -109,6 +109,12 @@ func (g *Gen) def(prefix, sort, term string) string {
 	}
 	g.n++
 	name := fmt.Sprintf("|%s!%d|", strings.Trim(sanitize(prefix), "|"), g.n)
+	if sort == "Int" {
+		// integers are named by constants (not macros) so that index terms stay atomic for E-matching
+		g.emit(fmt.Sprintf("(declare-const %s Int)", name))
+		g.emit(fmt.Sprintf("(assert (= %s %s))", name, term))
+		return name
+	}
 	g.emit(fmt.Sprintf("(define-fun %s () %s %s)", name, sort, term))
 	return name
 }
@@ -215,7 +221,7 @@ func (g *Gen) havocAll(s *State, why string) {
 	old := g.get(s, "$alloc")
 	for _, k := range g.keyOrder {
 		ki := g.keys[k]
-		if ki.kind == "visited" || ki.kind == "stable" {
+		if ki.kind == "visited" || ki.kind == "stable" || ki.kind == "lockstate" {
 			continue
 		}
 		g.havocKey(s, k, why)
@@ -373,6 +379,8 @@ type FnCtx struct {
 	named    map[string]*ssa.Alloc
 	lastVars map[string]Val
 	preVals  map[ssa.Value]Val
+	lockSnap map[string]*State
+	pendingResults []Val
 }
 
 type iterInfo struct {
